@@ -30,14 +30,17 @@ type unit struct {
 	funcs []string // declarations to translate ("*" = all); methods as ".Name"
 	vars  []string // package-level variables whose initialiser is translated
 	extra [][3]string // functions of other files, linked in under another name: {file, name, as}
+	xvars [][2]string // package-level variables of other files of the package: {file, name}
 }
 
 var units = []unit{
-	{"matchProg", "match/match.go", []string{"*"}, []string{"DefaultMatcher"}, nil},
-	{"coreStepProg", "core/step.go", []string{"IsBranchTargetVariable", ".target"}, nil, nil},
-	{"coreActionsProg", "core/actions.go", []string{"isPermanent"}, nil, nil},
-	{"coreUtilProg", "core/util.go", []string{"Unquestion"}, nil, nil},
-	{"toolsProg", "tools/analysis.go", []string{"*"}, nil, [][3]string{{"core/step.go", "IsBranchTargetVariable", "core.IsBranchTargetVariable"}}},
+	{"matchProg", "match/match.go", []string{"*"}, []string{"DefaultMatcher"}, nil, nil},
+	{"coreStepProg", "core/step.go", []string{"IsBranchTargetVariable", ".target"}, nil, nil, nil},
+	{"coreActionsProg", "core/actions.go", []string{"isPermanent"}, nil, nil, nil},
+	{"coreUtilProg", "core/util.go", []string{"Unquestion"}, nil, nil, nil},
+	{"toolsProg", "tools/analysis.go", []string{"*"}, nil, [][3]string{{"core/step.go", "IsBranchTargetVariable", "core.IsBranchTargetVariable"}}, nil},
+	{"sioCrewProg", "sio/crew.go", []string{".allMachines", ".toMachines"}, nil, nil,
+		[][2]string{{"sio/timers.go", "TimersMachine"}, {"sio/captainspec.go", "CaptainMachine"}}},
 }
 
 var (
@@ -724,6 +727,27 @@ func main() {
 				for i, n := range vs.Names {
 					for _, w := range u.vars {
 						if w == n.Name && i < len(vs.Values) {
+							globals = append(globals, "("+lstr(n.Name)+", "+expr(vs.Values[i])+")")
+						}
+					}
+				}
+			}
+		}
+		for _, xv := range u.xvars {
+			xf, err := parser.ParseFile(fset, filepath.Join(*repo, xv[0]), nil, 0)
+			if err != nil {
+				fmt.Fprintln(os.Stderr, "go2lean:", err)
+				os.Exit(2)
+			}
+			for _, d := range xf.Decls {
+				gd, ok := d.(*ast.GenDecl)
+				if !ok || gd.Tok != token.VAR {
+					continue
+				}
+				for _, sp := range gd.Specs {
+					vs := sp.(*ast.ValueSpec)
+					for i, n := range vs.Names {
+						if n.Name == xv[1] && i < len(vs.Values) {
 							globals = append(globals, "("+lstr(n.Name)+", "+expr(vs.Values[i])+")")
 						}
 					}
